@@ -161,6 +161,8 @@ func checkC03(c *Ctx) {
 					r.OK("C03.1", "handleNewTCPConn: clientConn offered to WrapConnection", in.Pos(), "checked per implementation below")
 				case cc.StaticCallee() != nil && isRepoPath(fnPkgPath(cc.StaticCallee())) && onlyObserves(cc.StaticCallee(), i, 0):
 					r.OK("C03.1", "handleNewTCPConn: clientConn passed to observer "+shortName(name), in.Pos(), "callee only calls accessors on it")
+				case helperCallee(h, cc) != nil && drainsOnly(helperCallee(h, cc), i):
+					r.OK("C03.1", "handleNewTCPConn: clientConn passed to the drain helper "+shortName(name), in.Pos(), "callee only observes it and drains it into io.Discard")
 				default:
 					r.Bad("C03.1", "handleNewTCPConn: clientConn escapes into "+shortName(pathOfCallee(cc)), in.Pos(), fnName(h),
 						"the unidentified connection is handed to "+shortName(pathOfCallee(cc))+", which may write to or close it")
@@ -228,6 +230,14 @@ func checkC03(c *Ctx) {
 				n := calleeName(cc)
 				if n == "io.Copy" && len(cc.Args) == 2 && pathOf(cc.Args[0]) == "io.Discard" && aliases[cc.Args[1]] {
 					return true
+				}
+				// the drain moved into a helper of the package that drains the connection on every path through it
+				if hf := helperCallee(h, cc); hf != nil {
+					for i, a := range cc.Args {
+						if aliases[a] && drainsOnly(hf, i) && mustDrain(hf, i) {
+							return true
+						}
+					}
 				}
 				if n == "time.Sleep" && len(cc.Args) == 1 {
 					if u, ok := cc.Args[0].(*ssa.Call); ok && calleeName(&u.Call) == "time.Until" && u.Call.Args[0] == setDL.Call.Args[0] {
@@ -764,4 +774,74 @@ func parksOn(in ssa.Instruction) string {
 		}
 	}
 	return ""
+}
+
+
+// drainsOnly: in helper f the connection parameter idx is only observed (RemoteAddr / LocalAddr) or read to
+// exhaustion into io.Discard - nothing else touches it.
+func drainsOnly(f *ssa.Function, idx int) bool {
+	if f == nil || f.Blocks == nil || idx >= len(f.Params) {
+		return false
+	}
+	p := f.Params[idx]
+	if p.Referrers() == nil {
+		return true
+	}
+	for _, ref := range *p.Referrers() {
+		switch x := ref.(type) {
+		case *ssa.DebugRef:
+		case ssa.CallInstruction:
+			cc := x.Common()
+			if cc.IsInvoke() && cc.Value == ssa.Value(p) {
+				switch cc.Method.Name() {
+				case "RemoteAddr", "LocalAddr":
+				default:
+					return false
+				}
+				continue
+			}
+			return false
+		case *ssa.MakeInterface, *ssa.ChangeInterface:
+			// io.Copy(io.Discard, conn): the conversion to io.Reader may only feed that call
+			v := ref.(ssa.Value)
+			if v.Referrers() != nil {
+				for _, r2 := range *v.Referrers() {
+					if _, isDbg := r2.(*ssa.DebugRef); isDbg {
+						continue
+					}
+					ci, isCall := r2.(ssa.CallInstruction)
+					if !isCall || calleeName(ci.Common()) != "io.Copy" || len(ci.Common().Args) != 2 || pathOf(ci.Common().Args[0]) != "io.Discard" || ci.Common().Args[1] != v {
+						return false
+					}
+				}
+			}
+		default:
+			return false
+		}
+	}
+	return true
+}
+
+// mustDrain: every path through helper f drains its connection parameter idx into io.Discard before it returns.
+func mustDrain(f *ssa.Function, idx int) bool {
+	p := f.Params[idx]
+	isDrain := func(in ssa.Instruction) bool {
+		ci, ok := in.(ssa.CallInstruction)
+		if !ok || calleeName(ci.Common()) != "io.Copy" || len(ci.Common().Args) != 2 || pathOf(ci.Common().Args[0]) != "io.Discard" {
+			return false
+		}
+		src := ci.Common().Args[1]
+		if src == ssa.Value(p) {
+			return true
+		}
+		switch x := src.(type) {
+		case *ssa.MakeInterface:
+			return x.X == ssa.Value(p)
+		case *ssa.ChangeInterface:
+			return x.X == ssa.Value(p)
+		}
+		return false
+	}
+	skip, _ := reach(f, nil, isReturn, isDrain, nil)
+	return !skip
 }
